@@ -253,6 +253,12 @@ var c05Shapes = []struct {
 	{"except", func(o, in string) string {
 		return "try {\nraise(\"E\")\n} except {\n" + o + "\n" + in + "\n}"
 	}},
+	{"typed except as", func(o, in string) string {
+		return "try {\nraise(\"E\", \"d\", 1)\n} except \"X\" {\nx.mark(8)\n} except \"E\" as c {\n" + o + "\n" + in + "\n}\nx.mark(c)"
+	}},
+	{"typed except, two types", func(o, in string) string {
+		return "try {\nraise(\"E2\")\n} except \"E1\", \"E2\" {\n" + o + "\n" + in + "\n}"
+	}},
 	{"condition loop", func(o, in string) string {
 		return "c := 2\nfor c > 0 {\nc := c - 1\n" + o + "\n" + in + "\n}"
 	}},
@@ -292,6 +298,8 @@ var c05Assigns = []string{
 	"for a in [7, 8] {\nx.mark(a)\n}",
 	"func a() {\n}",
 	"try {\nraise(\"E\")\n} except as a {\nx.mark(a.type)\n}",
+	"try {\nraise(\"E\")\n} except \"E\" as a {\nlet b := 3\nx.mark(a.type, b)\n}",
+	"try {\nraise(\"E\")\n} except \"E\" {\nlet a := 2\nlet b := 3\n}",
 	"a := [a]",
 	"if true {\nlet a := 3\nx.mark(a)\n}",
 }
@@ -310,6 +318,7 @@ var c05ParamSets = []struct {
 }{
 	{"", 0}, {"a", 1}, {"a, b", 2}, {"a, b=5", 2}, {"a=1, b=2", 2}, {"a, b=c", 2}, {"a, b=a", 2},
 	{"a=x.mark(7), b=x.mark(8)", 2}, {"a, b=[1]", 2}, {"a=c, b, c=3", 3},
+	{"a=h(1)", 1}, {"a, b=h(c)", 2}, {"a=h(h(2)), b=h(3)", 2}, {"a=new({\"k\": c})", 1}, {"a=func () {\nreturn c\n}", 1}, {"a=o.m(c)", 1},
 }
 
 var c05CallCtx = []struct{ name, pre, post string }{
@@ -374,6 +383,7 @@ var c05Containers = []string{
 	"{\"1\": 10, \"-1\": 20}",
 	"{-1: 10, 0: 20}",
 	"{\"k\": [10, {\"j\": 20}], 1: {2: [30]}, \"a\": {\"b\": 50}}",
+	"{1: {\"k\": 10, 1: [11, 12], \"1\": [13]}, \"1\": {\"k\": 20, 1: [21, 22], \"1\": [23]}, \"k\": {1: 30, \"1\": 31}}",
 	"[[10, 20], {\"k\": 30, 1: 40}, []]",
 	"{}",
 	"[]",
@@ -388,6 +398,7 @@ var c05Paths2 = []string{
 	"a.k", "a.j", "a.zz", "a.k[0]", "a.k[1].j", "a.k[1][\"j\"]", "a[\"k\"][1].j", "a[1][2][0]", "a[1][2][-1]", "a[1][2][1]",
 	"a[0][0]", "a[0][-1]", "a[0][2]", "a[1].k", "a[1][1]", "a[1][\"1\"]", "a[1].zz", "a[2][0]", "a.a.b", "a[\"a.b\"]", "a[\"a\"][\"b\"]",
 	"a[\"a\"].b", "a.k.j", "a[0].k", "a.zz.k", "a[5][0]", "a[b]", "a[c]", "a[b][b]", "a[1][b]",
+	"a[\"1\"].k", "a[1][1][0]", "a[\"1\"][1][0]", "a[1][\"1\"][0]", "a[\"1\"][\"1\"][0]", "a.k[1]", "a.k[\"1\"]", "a[b].k", "a[b][b][0]",
 }
 
 var c05ListOps = []string{
@@ -440,6 +451,25 @@ var c05Objects = []string{
 	"a := {\"init\": func (this) {\nx.mark(this)\n}, \"m\": func () {\nthis := 1\nreturn this\n}}\no := new(a, 3)\nx.mark(o.m())\nx.mark(o.m())",
 	"a := {\"init\": func () {\nx.mark(1)\n}}\no := new(a)\nb := new(o)\nx.mark(len(b))",
 	"a := {1: 2, \"k\": {\"j\": 1}}\no := new(a)\no.k.j := 2\nx.mark(a.k.j, o[1])",
+	// objects used as templates / super templates: their methods and inits are already bound to another object
+	"a := {\"k\": 1, \"m\": func () {\nreturn this.k\n}}\no := new(a)\nb := new(o)\nb.k := 7\nx.mark(b.m(), o.m(), a.k)",
+	"a := {\"k\": 1, \"m\": func (b) {\nthis.k := b\nreturn this.k\n}}\no := new(a)\nb := new(o)\nb.m(5)\nx.mark(b.k, o.k)\nc := new(b)\nc.m(6)\nx.mark(c.k, b.k, o.k)",
+	"a := {\"init\": func (b) {\nthis.k := b\nx.mark(1, b)\n}}\no := new(a, 1)\nb := {\"super\": [o], \"j\": 2}\nc := new(b, 3)\nx.mark(c.k, o.k, c.j)",
+	"a := {\"k\": 1, \"init\": func () {\nthis.k := 2\n}, \"m\": func () {\nreturn this.k\n}}\no := new(a)\nb := {\"super\": [o], \"init\": func () {\nlet f := super[0]\nf()\nthis.j := this.m()\n}}\nc := new(b)\no.k := 9\nx.mark(c.k, c.j, c.m(), o.m())",
+	"a := {\"k\": 1, \"m\": func () {\nreturn this.k\n}}\no := new(a)\nb := {\"super\": [o, a], \"k\": 3}\nc := new(b)\nx.mark(c.m())\no.k := 8\nx.mark(c.m(), o.m())",
+	"a := {\"m\": func () {\nreturn this\n}}\no := new(a)\nb := new(o)\nx.mark(b.m() == b, b.m() == o, o.m() == o)",
+}
+
+// user definitions that shadow inbuilt functions (a variable holding a function is resolved before stdlib and inbuilt
+// functions of the same name; lexical scoping applies to these names like to any other) and names outside {a,b,c,f,g,o}
+var c05Shadow = []string{
+	"func %s(a) {\nreturn 99\n}\nx.mark(%s([1, 2]))",
+	"%s := func (a) {\nreturn 98\n}\nx.mark(%s([1, 2]))",
+	"func f(%s) {\nreturn %s([1, 2])\n}\nx.mark(f(func (a) {\nreturn 97\n}))\nx.mark(f())",
+	"if true {\nlet %s := func (a) {\nreturn 96\n}\nx.mark(%s([1, 2]))\n}\nx.mark(%s([1, 2], [3]))",
+	"func f() {\nfunc %s(a) {\nreturn 95\n}\nreturn %s([1, 2])\n}\nx.mark(f())\nx.mark(%s([1, 2], [3]))",
+	"%s := 5\nx.mark(%s)\nx.mark(%s([1, 2], [3]))",
+	"o := {\"%s\": func (a) {\nreturn 94\n}}\nx.mark(o.%s([1, 2]))\nx.mark(%s([1, 2], [3]))",
 }
 
 // templates / function literals declared INSIDE a running method, init or function, instantiated and
@@ -536,7 +566,8 @@ func (g *c05Rand) path() string {
 
 func (g *c05Rand) lit() string {
 	return g.pick("0", "1", "2", "3", "\"s\"", "\"k\"", "\"1\"", "null", "true", "[1, 2, 3]", "[]", "{\"k\": 1, \"j\": [2]}", "{1: \"x\", \"1\": \"y\"}",
-		"[[1], {\"k\": 2}]", "{\"a.b\": 1, \"k\": {\"j\": 3}}", "{}", "[a, b]", "{\"k\": a}", "[c]")
+		"[[1], {\"k\": 2}]", "{\"a.b\": 1, \"k\": {\"j\": 3}}", "{}", "[a, b]", "{\"k\": a}", "[c]",
+		"{1: {\"k\": 1}, \"1\": {\"k\": 2}}", "{1: [1, 2], \"1\": [3, 4], \"k\": {1: 5, \"1\": 6}}")
 }
 
 func (g *c05Rand) call() string {
@@ -635,7 +666,7 @@ func (g *c05Rand) stmt(d int) string {
 	case r < 67:
 		return "for " + g.pick("a in [1, 2]", "b in a", "c in [[1], [2]]", "[b, c] in o", "[a, b] in o", "c in b", "a in range(1, 2)") + " " + g.block(d)
 	case r < 72:
-		return "try " + g.block(d) + " except " + g.pick("", "as c ", "as a ") + g.block(d) + g.pick("", " finally "+g.block(d))
+		return "try " + g.block(d) + " except " + g.pick("", "as c ", "as a ", "\"Runtime error\" as c ", "\"Invalid state\", \"Runtime error\" ", "\"E\" as a ") + g.block(d) + g.pick("", " finally "+g.block(d), " except as b "+g.block(d))
 	case r < 90:
 		if g.level >= 2 {
 			return g.simple()
@@ -670,7 +701,8 @@ func (g *c05Rand) stmt(d int) string {
 			sup = ", \"super\": " + g.pick("[a]", "[a, b]", "[b]", "[o]", "[]")
 		}
 		t := g.pick("a", "b", "c", "o")
-		return t + " := {\"k\": " + g.safe() + ", \"m\": " + m + ini + sup + "}\no := new(" + t + g.pick("", ", 1", ", 2, 3") + ")"
+		return t + " := {\"k\": " + g.safe() + ", \"m\": " + m + ini + sup + "}\no := new(" + t + g.pick("", ", 1", ", 2, 3") + ")" +
+			g.pick("", "", "\nb := new(o)\nb.k := 7\nx.mark(b.m(1), o.m(1))", "\nc := {\"super\": [o], \"j\": 1}\nb := new(c, 4)\nx.mark(b.k, b.m(2), o.k)")
 	}
 }
 
@@ -810,7 +842,7 @@ func init() {
 						args[i] = fmt.Sprint(11 + i)
 					}
 					for _, cx := range c05CallCtx {
-						prog := "a := 1\nb := 2\nc := 3\nfunc f(" + ps.params + ") {\nreturn [a, b, c]\n}\n" + cx.pre + "x.mark(f(" + strings.Join(args, ", ") + "))" + cx.post
+						prog := "a := 1\nb := 2\nc := 3\no := {\"m\": func (a) {\nx.mark(6, a)\nreturn [a]\n}}\nfunc h(a) {\nx.mark(9, a)\nreturn [a]\n}\nfunc f(" + ps.params + ") {\nreturn [a, b, c]\n}\n" + cx.pre + "x.mark(f(" + strings.Join(args, ", ") + "))" + cx.post
 						emit("exhaustive parameters x defaults x argument count x call context", prog, "[a, b, c]")
 					}
 				}
@@ -873,6 +905,12 @@ func init() {
 			// (6) objects
 			for _, s := range c05Objects {
 				emit("directed objects", s, "o", "a", "b")
+			}
+			// (6a) user definitions shadowing inbuilt names, and other names
+			for _, nm := range []string{"len", "add", "del", "concat", "new", "type", "range", "raise", "myfunc", "x", "this"} {
+				for _, t := range c05Shadow {
+					emit("exhaustive shadowing form x inbuilt name", strings.ReplaceAll(t, "%s", nm), nm, "f")
+				}
 			}
 			// (6b) declarations inside a running method / init / function, probes of the outer frame afterwards
 			for _, oc := range c05OuterCtx {
